@@ -12,6 +12,13 @@ type intrinsic func(e *Engine, fn *ssa.Function, args []Value) Value
 
 var intrinsics map[string]intrinsic
 
+type optStub struct {
+	name string
+	h    intrinsic
+}
+
+var optionalStubs = map[string]optStub{}
+
 type prefixIntr struct {
 	prefix string
 	h      intrinsic
@@ -114,6 +121,14 @@ func (e *Engine) ghostOf(c *Cell) *ghostState {
 }
 
 func (e *Engine) now() *Term {
+	if !e.stubOn["symtime"] {
+		// default clock: concrete, strictly increasing by 1 ms per reading (timing-dependent
+		// heuristics are not the subject unless a harness asks for vStub("symtime"))
+		e.nowSeq++
+		t := e.ts.BVConst(64, uint64(1<<50)+uint64(e.nowSeq)*1000000)
+		e.timeNow = t
+		return t
+	}
 	name := fmt.Sprintf("now%d", e.nowSeq)
 	e.nowSeq++
 	t := e.newVar(name, BV(64))
@@ -177,6 +192,10 @@ func init() {
 		hname("vtier"): func(e *Engine, fn *ssa.Function, a []Value) Value { return e.intConst(e.tier) },
 		hname("vbound"): func(e *Engine, fn *ssa.Function, a []Value) Value {
 			e.unwind = e.concreteInt(a[0], "vbound")
+			return nil
+		},
+		hname("vStub"): func(e *Engine, fn *ssa.Function, a []Value) Value {
+			e.stubOn[a[0].(StringV).s] = true
 			return nil
 		},
 		hname("vsymbolic"): func(e *Engine, fn *ssa.Function, a []Value) Value { return e.ts.True },
@@ -439,6 +458,14 @@ func init() {
 			g.locked = 0
 			return nil
 		},
+		"(*sync.RWMutex).TryLock": func(e *Engine, fn *ssa.Function, a []Value) Value {
+			g := e.ghostOf(a[0].(Ptr).c)
+			if g.locked > 0 || g.readers > 0 {
+				return e.ts.False
+			}
+			g.locked = 1
+			return e.ts.True
+		},
 		"(*sync.RWMutex).RLock": func(e *Engine, fn *ssa.Function, a []Value) Value {
 			g := e.ghostOf(a[0].(Ptr).c)
 			if g.locked > 0 {
@@ -612,6 +639,17 @@ func init() {
 	}
 
 	intrinsics["(*"+pkgPath[:len(pkgPath)-1]+".receivePayloadQueue).getGapAckBlocksString"] = opaqueString
+	// optional stubs, enabled per harness with vStub(name)
+	optionalStubs["(*"+pkgPath[:len(pkgPath)-1]+".rtoManager).setNewRTT"] = optStub{"setNewRTT", func(e *Engine, fn *ssa.Function, a []Value) Value {
+		// pure callee summarised: arbitrary finite non-negative SRTT (verified on its own in C19.L1)
+		e.rndSeq++
+		b := e.newVar(fmt.Sprintf("srtt%d", e.rndSeq), BV(64))
+		f := e.ts.FpFromBits(b)
+		e.addPC(e.ts.FpCmp(OpFpLe, e.ts.FPConst(0), f))
+		e.addPC(e.ts.FpCmp(OpFpLe, f, e.ts.FPConst(1e12)))
+		e.rttSamples++
+		return f
+	}}
 	prefixIntrinsics = []prefixIntr{
 		{"(*strings.Builder).String", opaqueString},
 		{"(*strings.Builder).", nop},
